@@ -45,6 +45,8 @@ pub struct Profile {
     pub stabilize_rounds: usize,
     pub joint: bool,
     pub v1: bool,
+    /// lock-step lease scenario (C16): rounds of the majority heartbeat schedule with a free minority
+    pub lease_rounds: usize,
 }
 
 impl Profile {
@@ -81,6 +83,7 @@ impl Profile {
             stabilize_rounds: 0,
             joint: false,
             v1: false,
+            lease_rounds: 0,
         }
     }
 
@@ -215,6 +218,25 @@ impl Profile {
                 p.w_campaign = 2;
                 p.async_pct = 60;
                 p.steps = 900;
+                p.max_down = 2;
+            }
+            "lease3" => {
+                p.pre_vote = true;
+                p.check_quorum = true;
+                p.steps = 100;
+                p.w_crash = 0;
+                p.stabilize_rounds = 25;
+                p.lease_rounds = 25;
+            }
+            "lease5" => {
+                p.ids = vec![1, 2, 3, 4, 5];
+                p.voters = vec![1, 2, 3, 4, 5];
+                p.pre_vote = true;
+                p.check_quorum = true;
+                p.steps = 100;
+                p.w_crash = 0;
+                p.stabilize_rounds = 25;
+                p.lease_rounds = 25;
                 p.max_down = 2;
             }
             "live" => {
@@ -837,5 +859,196 @@ impl Sched {
             }
         }
         probe_done
+    }
+
+    /// C16 scenario: the leader and a majority exchange heartbeats in lock-step, one round per tick, while the
+    /// remaining nodes and every message to or from them are completely free.  Returns (leader, members, term)
+    /// or None if the premises (a leader at the maximal term, no transfer pending) do not hold.
+    pub fn lease_premise(&self, cl: &Cluster) -> Option<(u64, Vec<u64>, u64)> {
+        let mut leader = None;
+        let mut max_term = 0;
+        for slot in &cl.nodes {
+            if let Some(r) = &slot.raw {
+                max_term = max_term.max(r.raft.term);
+                if r.raft.state == raft::StateRole::Leader {
+                    leader = Some((slot.id, r.raft.term, r.raft.lead_transferee.is_some()));
+                }
+            } else {
+                max_term = max_term.max(slot.dur.hs.term);
+            }
+        }
+        let (l, t, tr) = leader?;
+        if t < max_term || tr || !cl.net.is_empty() {
+            return None;
+        }
+        let voters: Vec<u64> = cl.nodes[cl.slot(l)].raw.as_ref().unwrap().raft.prs().conf().to_conf_state().voters.clone();
+        let mut others: Vec<u64> = voters.iter().copied().filter(|v| *v != l && cl.is_up(*v)).collect();
+        others.sort_unstable();
+        let need = voters.len() / 2; // members besides the leader
+        if others.len() < need {
+            return None;
+        }
+        // members must follow the leader at the same term
+        let members: Vec<u64> = others
+            .into_iter()
+            .filter(|v| {
+                let r = cl.nodes[cl.slot(*v)].raw.as_ref().unwrap();
+                r.raft.term == t && r.raft.leader_id == l
+            })
+            .take(need)
+            .collect();
+        if members.len() < need {
+            return None;
+        }
+        Some((l, members, t))
+    }
+
+    fn process_fully(cl: &mut Cluster, n: u64, out: &mut Vec<Event>) {
+        for _ in 0..50 {
+            if !cl.is_up(n) {
+                return;
+            }
+            let i = cl.slot(n);
+            let mut progress = false;
+            if cl.nodes[i].app.outstanding.is_some() {
+                if let Some(e) = cl.apply_choice(&Choice::AdvanceAppend { n }) {
+                    out.push(e);
+                    progress = true;
+                }
+            } else if cl.nodes[i].raw.as_ref().unwrap().has_ready() {
+                if let Some(e) = cl.apply_choice(&Choice::Ready { n }) {
+                    out.push(e);
+                    progress = true;
+                }
+            } else if let Some(b) = cl.nodes[i].app.apply_queue.back() {
+                let k = b.index;
+                if let Some(e) = cl.apply_choice(&Choice::Apply { n, k }) {
+                    out.push(e);
+                    progress = true;
+                }
+            }
+            if !progress {
+                return;
+            }
+        }
+    }
+
+    fn free_burst(&mut self, cl: &mut Cluster, out: &mut Vec<Event>, free: &[u64], k: usize) {
+        for _ in 0..k {
+            let mut cands: Vec<Choice> = vec![];
+            for f in free {
+                if !cl.is_up(*f) {
+                    cands.push(Choice::Restart { n: *f, applied: -1 });
+                    continue;
+                }
+                let i = cl.slot(*f);
+                if cl.nodes[i].app.outstanding.is_some() {
+                    cands.push(Choice::AdvanceAppend { n: *f });
+                    continue;
+                }
+                for _ in 0..3 {
+                    cands.push(Choice::Tick { n: *f });
+                }
+                if cl.nodes[i].raw.as_ref().unwrap().has_ready() {
+                    for _ in 0..3 {
+                        cands.push(Choice::Ready { n: *f });
+                    }
+                }
+                if let Some(b) = cl.nodes[i].app.apply_queue.back() {
+                    cands.push(Choice::Apply { n: *f, k: b.index });
+                }
+                if self.rng.gen_range(0..12) == 0 {
+                    cands.push(Choice::Campaign { n: *f });
+                }
+                if self.rng.gen_range(0..25) == 0 {
+                    cands.push(Choice::Crash { n: *f });
+                }
+            }
+            for m in cl.net.iter() {
+                if free.contains(&m.to) || free.contains(&m.from) {
+                    let mv = msg_view(m);
+                    let deliverable = cl.cfg.ids.contains(&m.to)
+                        && cl.is_up(m.to)
+                        && cl.nodes[cl.slot(m.to)].app.outstanding.is_none();
+                    if deliverable {
+                        cands.push(Choice::Deliver { m: mv.clone(), keep: false });
+                        cands.push(Choice::Deliver { m: mv.clone(), keep: false });
+                        if self.rng.gen_range(0..6) == 0 {
+                            cands.push(Choice::Deliver { m: mv.clone(), keep: true });
+                        }
+                    }
+                    cands.push(Choice::Drop { m: mv });
+                }
+            }
+            if cands.is_empty() {
+                return;
+            }
+            let c = cands[self.rng.gen_range(0..cands.len())].clone();
+            let target = match &c {
+                Choice::Deliver { m, .. } => Some(m.to),
+                _ => None,
+            };
+            if let Some(e) = cl.apply_choice(&c) {
+                out.push(e);
+            }
+            // majority members process what a free node sent them at once (they stay idle between steps)
+            if let Some(t) = target {
+                if !free.contains(&t) {
+                    Self::process_fully(cl, t, out);
+                }
+            }
+            self.refresh_timeouts(cl);
+        }
+    }
+
+    fn deliver_between(cl: &mut Cluster, out: &mut Vec<Event>, from: &[u64], to: &[u64]) {
+        loop {
+            let pick = cl
+                .net
+                .iter()
+                .map(msg_view)
+                .find(|m| from.contains(&m.from) && to.contains(&m.to));
+            match pick {
+                Some(m) => {
+                    let t = m.to;
+                    if let Some(e) = cl.apply_choice(&Choice::Deliver { m: m.clone(), keep: false }) {
+                        out.push(e);
+                        Self::process_fully(cl, t, out);
+                    } else if let Some(e) = cl.apply_choice(&Choice::Drop { m }) {
+                        out.push(e);
+                    } else {
+                        return;
+                    }
+                }
+                None => return,
+            }
+        }
+    }
+
+    pub fn lease(&mut self, cl: &mut Cluster, out: &mut Vec<Event>, leader: u64, members: &[u64], rounds: usize) {
+        let free: Vec<u64> = cl.cfg.ids.iter().copied().filter(|n| *n != leader && !members.contains(n)).collect();
+        let burst = 6;
+        for _ in 0..rounds {
+            if let Some(e) = cl.apply_choice(&Choice::Tick { n: leader }) {
+                out.push(e);
+            }
+            Self::process_fully(cl, leader, out);
+            self.free_burst(cl, out, &free, burst);
+            Self::deliver_between(cl, out, &[leader], members);
+            self.free_burst(cl, out, &free, burst);
+            for j in members {
+                if let Some(e) = cl.apply_choice(&Choice::Tick { n: *j }) {
+                    out.push(e);
+                }
+                Self::process_fully(cl, *j, out);
+            }
+            self.free_burst(cl, out, &free, burst);
+            for _ in 0..3 {
+                Self::deliver_between(cl, out, members, &[leader]);
+                Self::deliver_between(cl, out, &[leader], members);
+            }
+            self.free_burst(cl, out, &free, burst);
+            self.refresh_timeouts(cl);
+        }
     }
 }
